@@ -7,10 +7,10 @@ name="$1"; src="$2"; shift 2
 dst="/verif/seeded/$name"; mkdir -p "$dst"
 for f in patch.diff demo.py notes.json; do [ -f "$src/$f" ] && cp "$src/$f" "$dst/$f"; done
 wt=$(mktemp -d /tmp/rtfseed.XXXXXX)
-git -C /repo worktree add -q --detach "$wt" HEAD || exit 2
+git -C /repo worktree add -q --detach "$wt" "${BASE:-HEAD}" || exit 2
 cd "$wt" || exit 2
 PYTHONPATH="$wt/src" /venv/bin/python "$dst/demo.py" >/dev/null 2>&1; d0=$?
-git apply "$dst/patch.diff" || { echo "PATCH DOES NOT APPLY"; git -C /repo worktree remove --force "$wt"; exit 2; }
+git apply "$dst/patch.diff" 2>/dev/null || git apply --3way "$dst/patch.diff" || { echo "PATCH DOES NOT APPLY"; git -C /repo worktree remove --force "$wt"; exit 2; }
 t=$(PYTHONPATH="$wt/src" /venv/bin/python -m pytest -q -p no:cacheprovider 2>&1 | tail -1)
 PYTHONPATH="$wt/src" /venv/bin/python "$dst/demo.py" >/dev/null 2>&1; d1=$?
 echo "seed=$name demo_clean_exit=$d0 demo_changed_exit=$d1 tests: $t"
